@@ -13,4 +13,13 @@ assert c["obligations"] == c["discharged"] and not e.get("violations"), sys.argv
 PY
 done
 python3 tools/mk_manifest.py
+# schema validation of the manifest and of every evidence file (the tooling venv has jsonschema; skipped when it is absent)
+if command -v python3-vt >/dev/null 2>&1; then python3-vt - <<'PY'
+import json, glob, jsonschema
+jsonschema.validate(json.load(open("MANIFEST.json")), json.load(open("/root/.vp/MANIFEST.schema.json")))
+sch = json.load(open("/root/.vp/EVIDENCE.schema.json"))
+for f in sorted(glob.glob("evidence/*.json")): jsonschema.validate(json.load(open(f)), sch)
+print("precommit: schemas ok")
+PY
+fi
 echo "precommit: ok"
